@@ -2277,8 +2277,11 @@ void XTemplateSerializer::storeObject(NameIdPool<XMLNotationDecl>* const objToSt
 
         while (e.hasMoreElements())
         {
+            //  Store the object itself, not just its data: it is the key
+            //  of its annotation in the grammar's annotation table, which
+            //  can only refer to objects the engine has registered.
             XMLNotationDecl& data = e.nextElement();
-            data.serialize(serEng);
+            serEng<<&data;
         }
     }
 }
@@ -2311,9 +2314,8 @@ void XTemplateSerializer::loadObject(NameIdPool<XMLNotationDecl>** objToLoad
 
         for (unsigned int itemIndex = 0; itemIndex < itemNumber; itemIndex++)
         {
-            XMLNotationDecl*  data = new (serEng.getMemoryManager())
-                                     XMLNotationDecl(serEng.getMemoryManager());
-            data->serialize(serEng);
+            XMLNotationDecl*  data;
+            serEng>>data;
             (*objToLoad)->put(data);
         }
     }
